@@ -71,6 +71,7 @@ class Engine:
         self.static_by_id = {}
         self.float_lits = {}
         self.contracts = {}          # function key -> callee-side contract object (apply)
+        self.finding_conds = {}      # obligation name -> [(finding id, cond(ex) -> z3 Bool)]
         self.keep_smt = False
         self.smt_sink = None
         self.lambda_index = {}
